@@ -504,6 +504,18 @@ func (p *partition) newSubscribeLoop(ctx context.Context, groupID, consumerID st
 				}
 				return
 			}
+			// The stop offset itself may no longer be in the log, e.g. if it
+			// was removed by compaction, so also stop once we are past it.
+			if stopOffset != waitForNewMessages && !reverse && offset > stopOffset {
+				s := status.New(codes.ResourceExhausted, "Stop offset reached")
+
+				select {
+				case errCh <- s:
+				case <-cancel:
+				}
+				return
+			}
+
 			msgValue := m.Value()
 
 			headers := m.Headers()
